@@ -9,7 +9,7 @@ EXPLANATION = (
     "is tested first and short-circuits, the file names searched are stylua.toml then .stylua.toml, editorconfig is "
     "consulted only when no file was found and --no-editorconfig is off; (b) load_overrides wires each flag to the "
     "field of the same name. (g) the shape of the upward walk: search root = cwd unless --search-parent-directories, own directory looked up before the parent, stop at root or file-system root, recursion into parent() with the same root, XDG/HOME only with the flag, find_toml_file returns the first existing name, stdin uses --stdin-filepath or the cwd. (i) the directory handed to find_config_file derives from current_directory.join(path).parent() with no file-system dependent resolution (canonicalize / read_link / metadata) on the way. Not decided: the behaviour of the walk on concrete directory trees (`..` components, symlinks), cache keys, what the XDG/HOME lookups read."
-    "Later rounds: (R-CFG(k)) whenever --stdin-filepath is given (nothing forced) the stdin path resolves through load_configuration(filepath), without asking whether the path exists.")
+    "Later rounds: (R-CFG(k)) whenever --stdin-filepath is given (nothing forced) the stdin path resolves through load_configuration(filepath), without asking whether the path exists. Rounds 17-19: (R-CFG(b) path clause) no path of load_overrides skips a flag it has not tested.")
 ASSUMPTIONS = ["toml/ec4rs behave as documented", "rustc MIR and Instance::try_resolve are trusted"]
 
 
